@@ -11,6 +11,8 @@ import (
 	"bytes"
 	"fmt"
 	"math"
+	"os"
+	"strconv"
 	"strings"
 
 	"github.com/tdewolff/canvas"
@@ -26,7 +28,13 @@ import (
 
 var recorded = map[string]int{}
 
-const perClass = 6
+var perClass = func() int {
+	// C18_PERCLASS lifts the cap for in-process exploration (cmd tools); the check itself uses 6
+	if n, err := strconv.Atoi(os.Getenv("C18_PERCLASS")); err == nil && n > 0 {
+		return n
+	}
+	return 6
+}()
 
 // report passes a violation to the framework, at most perClass per class and worker (the
 // enumeration is simplest-first, so these are the smallest ones); all are tallied.
@@ -149,6 +157,17 @@ func checkDoc(spec docSpec, cfonts map[int]*canvas.Font, r *fw.R, fam string) {
 	}
 }
 
+// split decodes i = outer*inner + c and rotates the inner digit by the outer one. The driver
+// gives case i to worker i mod 16; with an inner period that is a multiple of 16 every worker
+// would see the same few (font, layout, embedding) combinations for all strings, the slow
+// combinations all on the same workers. The rotation spreads them; the outer digit (the string)
+// stays the slowest, so the enumeration is still simplest-first.
+func split(i int64, inner int) (outer int64, c int64) {
+	outer = i / int64(inner)
+	c = (i%int64(inner) + outer) % int64(inner)
+	return
+}
+
 // ---------------------------------------------------------------------------------------------
 // family: one text per document
 
@@ -157,8 +176,9 @@ func familySingle(name string, strs []string, kindSet []int, subsets []bool) fw.
 	decode := func(i int64) docSpec {
 		// the string is the slowest digit; the font (3, coprime to the 16 shards of the driver) the
 		// fastest, so that every worker gets every layout and both embedding modes
-		d := oracle.Digits(i, len(strs), int(nk), int(ns), int(nf))
-		return docSpec{subset: subsets[d[2]], steps: []step{{font: d[3], kind: kindSet[d[1]], s: strs[d[0]]}}}
+		si, c := split(i, int(nk*ns*nf))
+		d := oracle.Digits(c, int(nk), int(ns), int(nf))
+		return docSpec{subset: subsets[d[1]], steps: []step{{font: d[2], kind: kindSet[d[0]], s: strs[si]}}}
 	}
 	return fw.Family{
 		Name: name, N: ns * nk * nf * int64(len(strs)),
@@ -171,14 +191,17 @@ func familySingle(name string, strs []string, kindSet []int, subsets []bool) fw.
 // family: two texts per document (two fonts on one page; one font on two pages; one font
 // horizontally and vertically)
 
-var pairStrings = []string{"A", "i", "AV", "fi", "é x"}
+var pairStrings = []string{"A", "fi", "é x", "i", "AV"}
 var pairKinds = []int{kindLine, kindUpright}
 
-func familyPairs(name string, subsets []bool) fw.Family {
+func familyPairs(name string, pairStrings []string, subsets []bool) fw.Family {
 	np, nk, nf := len(pairStrings), len(pairKinds), len(fontMenu)
+	name = fmt.Sprintf("%s: %d x %d strings x 3 x 3 fonts x {line, vertical upright}^2 x {same page, new page} x SubsetFonts on/off", name, np, np)
 	radices := []int{np, np, nk, nk, 2, len(subsets), nf, nf}
+	inner := nk * nk * 2 * len(subsets) * nf * nf
 	decode := func(i int64) docSpec {
-		d := oracle.Digits(i, radices...)
+		si, c := split(i, inner)
+		d := append(oracle.Digits(si, np, np), oracle.Digits(c, radices[2:]...)...)
 		return docSpec{subset: subsets[d[5]], steps: []step{
 			{font: d[6], kind: pairKinds[d[2]], s: pairStrings[d[0]]},
 			{newPage: d[4] == 1, font: d[7], kind: pairKinds[d[3]], s: pairStrings[d[1]], shift: true},
@@ -194,8 +217,9 @@ func familyPairs(name string, subsets []bool) fw.Family {
 // ---------------------------------------------------------------------------------------------
 // family: one *canvas.Font object used for two documents in a row
 
-func familyReuse(name string) fw.Family {
+func familyReuse(name string, pairStrings []string) fw.Family {
 	np, nf := len(pairStrings), len(fontMenu)
+	name = fmt.Sprintf("%s: %d x %d strings x 3 fonts x SubsetFonts on/off for each", name, np, np)
 	radices := []int{np, np, 2, 2, nf}
 	decode := func(i int64) (docSpec, docSpec) {
 		d := oracle.Digits(i, radices...)
@@ -456,8 +480,9 @@ func familyToPath(name string, strs []string) fw.Family {
 func familyRenderAsPath(name string, strs []string) fw.Family {
 	nf, nk := len(fontMenu), len(kinds)
 	decode := func(i int64) (int, int, string) {
-		d := oracle.Digits(i, len(strs), nk, nf)
-		return d[2], d[1], strs[d[0]]
+		si, c := split(i, nk*nf)
+		d := oracle.Digits(c, nk, nf)
+		return d[1], d[0], strs[si]
 	}
 	return fw.Family{
 		Name: name, N: int64(nf * nk * len(strs)),
